@@ -46,6 +46,10 @@ func fxTime(v string) time.Time {
 		return fxLate
 	case "zero":
 		return time.Time{}
+	case "early":
+		return fxT0.Add(-7 * time.Second) // the sender's clock is a little behind the proposer's
+	case "ahead":
+		return fxT0.Add(90 * time.Second) // ... or ahead of it
 	}
 	return fxT0
 }
@@ -276,7 +280,7 @@ func fxWellFormed(e fxEvent, n int) bool {
 		return false
 	}
 	switch e.Var {
-	case "valid", "late", "keyB", "keyOnlyB", "lateB":
+	case "valid", "late", "keyB", "keyOnlyB", "lateB", "early", "ahead":
 		return true
 	}
 	return false
